@@ -507,6 +507,10 @@ def run(ctx):
     ctx.do(_c16.r16_5)  # COPYUID reports the UID looked up for each added key
     from . import c03 as _c03b
     ctx.do(_c03b.r3_7)  # the reverse indexes every UID look-up goes through are rebuilt whenever the lists change
+    from . import c12 as _c12
+    ctx.do(_c12.r12_8)  # a mailbox's row (UIDVALIDITY, next_uid, UIDs) is touched through its exact key only
+    from . import c11 as _c11
+    ctx.do(_c11.r11_9)
     for k, v in NEXT_UID_WRITERS.items():
         ctx.trust(f"frozen next_uid writer: {k} - {v}")
     for k, v in COMMIT_EXEMPT.items():
